@@ -57,7 +57,7 @@ func run(c *vf.Ctx) {
 		x.Report(n + "/")
 	}
 	c.RequireFeature("door1_original_live_accepted", "door1_original_dead_rejected", "door1_mutant_rejected", "door2_mutant_rejected", "door2_original_accepted",
-		"door3_mutant_rejected", "door3_original_accepted", "door4_mutant_rejected", "door4_original_accepted", "reverted_branch_rejected", "outdated_proof_rejected", "kind:siacoin", "kind:siafund", "kind:filecontract", "kind:v2filecontract", "kind:chainindex")
+		"door3_mutant_rejected", "door3_original_accepted", "door4_mutant_rejected", "door4_original_accepted", "door2b_mutant_rejected", "door2b_original_accepted", "reverted_branch_rejected", "outdated_proof_rejected", "kind:siacoin", "kind:siafund", "kind:filecontract", "kind:v2filecontract", "kind:chainindex")
 	c.Sample(map[string]any{"door": 1, "element": "siacoin", "mutation": ".SiacoinOutput.Value.Lo+1", "expected": "rejected"})
 	c.Sample(map[string]any{"door": 3, "element": "filecontract (supplement)", "mutation": ".FileContract.ValidProofOutputs[1].Value.Lo+1", "expected": "rejected"})
 }
@@ -307,6 +307,60 @@ func doors(c *vf.Ctx, x *chain.Explorer, w *chain.World, path []string) {
 				}
 				return useRevise(w, e), true
 			})
+			// door 2b: the same contract was revised by an EARLIER transaction of the block; a later transaction must
+			// still present the genuine accumulator element (a second revision, or a renewal)
+			if w.Keys.ClassOf(e.V2FileContract.RenterOutput.Address) >= 0 && e.V2FileContract.RevisionNumber < 1<<61 && e.V2FileContract.ProofHeight >= h {
+				genuine := e.Copy()
+				first := w.UseV2Revise(genuine, genuine.V2FileContract, 1)
+				after := func(t2 types.V2Transaction) bool {
+					var err error
+					if p, _ := vf.Try(func() {
+						ms := consensus.NewMidState(w.CS)
+						if err = consensus.ValidateV2Transaction(ms, *first.V2); err != nil {
+							return
+						}
+						ms.ApplyV2Transaction(*first.V2)
+						err = consensus.ValidateV2Transaction(ms, t2)
+					}); p != nil {
+						return false
+					}
+					return err == nil
+				}
+				seconds := map[string]func() (chain.Use, bool){
+					"second revision": func() (chain.Use, bool) {
+						rev := genuine.V2FileContract
+						rev.RevisionNumber++ // what the first transaction made of it
+						return w.UseV2Revise(e, rev, 1), true
+					},
+					"renewal": func() (chain.Use, bool) {
+						bc2 := w.NewBlockCtx()
+						f, ok := bc2.PickSC(func(cl int) bool { return cl == chain.AddrACS || cl == chain.AddrV2 }, types.Siacoins(400))
+						if !ok {
+							return chain.Use{}, false
+						}
+						return w.UseV2Renew(e, f)
+					},
+				}
+				for name, build := range seconds {
+					u, ok := build()
+					if !ok || u.V2 == nil || !after(*u.V2) {
+						continue
+					}
+					c.Count("door2b_original_accepted", 1)
+					for _, m := range chain.Mutations(&e, noSkip) {
+						m.Apply()
+						um, ok := build()
+						acc := ok && um.V2 != nil && after(*um.V2)
+						m.Undo()
+						c.Count("evaluations", 1)
+						if acc {
+							bad("door2b("+name+" after an in-block revision)", "v2filecontract", m.Path)
+						} else {
+							c.Count("door2b_mutant_rejected", 1)
+						}
+					}
+				}
+			}
 			door2("v2filecontract", &e, func() (chain.Use, bool) { return w.UseV2Expire(e), true })
 			door2("v2filecontract", &e, func() (chain.Use, bool) { return w.UseV2Proof(e) })
 			// chain index door: mutate the proof index of an honest storage proof
